@@ -35,7 +35,7 @@ import c20_worker as W  # noqa: E402   (name pools + specification predicates on
 
 RULE = ('schedules: each seeded API-built design (gen_designs + renaming through the public name property from pools '
         'of plain names / names needing Verilog sanitising / leading-zero families x1,x01,x001 / two write ports '
-        'sharing one enable; plus designs built by input_from_blif (generated BLIF with 2-3 multi-bit vectors, latches) and input_from_iscas_bench) is rebuilt in fresh subprocesses under PYTHONHASHSEED x allocation-noise configurations; '
+        'sharing one enable / wire names that look like generated identifiers / conditional_assignment blocks with defaults= for none, one or several targets; plus designs built by input_from_blif (generated BLIF with 2-3 multi-bit vectors, latches) and input_from_iscas_bench) is rebuilt in fresh subprocesses under PYTHONHASHSEED x allocation-noise configurations; '
         'sha256 of output_to_verilog, output_verilog_testbench, print_vcd, print_trace text and of the Simulation and '
         'FastSimulation traces compared across configurations (address-space randomisation off, so a configuration replays); 9 pass pipelines compared by Output traces; 23 export/analysis calls '
         'checked read-only by fingerprint + Output trace under Simulation and FastSimulation (ROM-only designs with list / dict / function romdata: every ROM address swept, output_to_firrtl called with rom_blocks=); designs of class samename carry distinct memories with EQUAL names (build_new_roms clones, duplicate MemBlock / RomBlock names). A case = (design, configuration, exporter|pipeline|call); '
@@ -707,8 +707,24 @@ def search_exports(ctx, exp_res, textdir, specs):
                                 'verilog_sha_a': ra['sha']['output_to_verilog'], 'verilog_sha_b': rb['sha']['output_to_verilog']})
             continue
         if len(fps) != 1:
-            ctx.notes.append('design %s was not built identically under all schedules (generator issue)' % key)
-            ctx.model_mismatch('harness: design %s differs structurally between schedules' % key, {'design': spec})
+            # the build script is a pure function of the seed (lists only): a structural difference comes
+            # from the construction API itself (e.g. helper nets / tmp names created in set order)
+            byfp = collections.OrderedDict()
+            for cfg, r in runs:
+                byfp.setdefault(r['fp'], (cfg, r))
+            (ca, ra), (cb, rb) = list(byfp.values())[:2]
+            ctx.spec_violation('nondeterministic:design-construction:%s' % spec['cls'],
+                               'the same construction script (class %s) builds structurally different blocks (wire names / '
+                               'nets) under schedules %s and %s (%d distinct structures over %d configurations), so '
+                               'output_to_verilog / print_vcd / print_trace texts of the design differ between processes'
+                               % (spec['cls'], list(ca), list(cb), len(byfp), len(runs)),
+                               {'design': spec, 'batch_prefix': BATCH_PREFIX.get(key, [spec]), 'seed': ctx.seed,
+                                'config_a': list(ca), 'config_b': list(cb),
+                                'nets_differ': sorted(set(map(json.dumps, ra['nets'])) ^ set(map(json.dumps, rb['nets'])))[:6],
+                                'verilog_sha_a': ra['sha']['output_to_verilog'], 'verilog_sha_b': rb['sha']['output_to_verilog'],
+                                'first_differing_lines': _first_diff(
+                                    load_text(textdir, key, 'output_to_verilog', ra['sha']['output_to_verilog']),
+                                    load_text(textdir, key, 'output_to_verilog', rb['sha']['output_to_verilog']))})
             continue
         r0 = runs[0][1]
         names = r0['set_order']
@@ -906,10 +922,11 @@ def run(ctx):
     t0 = time.time()
     tie_names(ctx)
     ctx.notes.append('tie_names %.1fs' % (time.time() - t0))
-    classes = ['plain', 'sani', 'zeros', 'both', 'memtie', 'samename', 'case', 'blif', 'iscas', 'genlike', 'blif']
-    specs = make_specs(ctx, 77 if quick else 242, 'e', classes)
+    classes = ['plain', 'sani', 'zeros', 'both', 'memtie', 'samename', 'case', 'blif', 'iscas', 'genlike', 'cond',
+               'blif', 'cond']
+    specs = make_specs(ctx, 78 if quick else 247, 'e', classes)
     configs = with_orders(make_configs(ctx, 4 if quick else 8, [0, 2, 5] if quick else [0, 1, 3, 7]))
-    exp_res, textdir = run_workers(ctx, 'export', specs, configs, batch=39 if quick else 61, tag='exp')
+    exp_res, textdir = run_workers(ctx, 'export', specs, configs, batch=39 if quick else 62, tag='exp')
     ctx.notes.append('export workers done at %.1fs' % (time.time() - t0))
     search_exports(ctx, exp_res, textdir, specs)
     ctx.notes.append('search_exports done at %.1fs' % (time.time() - t0))
